@@ -517,6 +517,19 @@ pub fn gen_mut(seed: u64, id: usize) -> CaseOut {
         }
     };
     let held: BTreeMap<String, String> = task.clone().into_task_data().iter().map(|(k, v)| (k.clone(), canon(v))).collect();
+    // direct oracle: a session that changed the task and did not write `modified` itself has
+    // refreshed it
+    let explicit_mod = script.iter().any(|d: &Value| d.as_str().map(|x| x.contains("modified")).unwrap_or(false));
+    let changed = {
+        let mut a = init.clone();
+        let mut b2: BTreeMap<String, String> = task.clone().into_task_data().iter().map(|(k, v)| (k.clone(), v.clone())).collect();
+        a.remove("modified");
+        b2.remove("modified");
+        a != b2
+    };
+    if changed && !explicit_mod && held.get("modified").map(|x| x.as_str()) != Some("NOW") {
+        problems.push(format!("the session changed the task (from {:?}) without writing `modified` itself, but `modified` is {:?}", init, held.get("modified")));
+    }
     let mut log = vec![];
     for o in ops.iter() {
         match o {
